@@ -120,6 +120,7 @@ GRAPH_MODELLED = [
 
 PROPS = {
     "C03": {
+        "extra_engines": ["cli"],
         "engine": "graph",
         "modelled": GRAPH_MODELLED,
         "assumptions": [
